@@ -118,7 +118,10 @@ def _hasattr(lib, run, recv, args, kw):
     if isinstance(v, OpaqueV) and isinstance(a, StrV):
         return BoolV(F('has_' + a.s, Opaque, Bool)(v.term))
     if isinstance(v, Ref) and isinstance(run.deref(v), Obj) and isinstance(a, StrV):
-        return BoolV(a.s in run.deref(v).fields)
+        o = run.deref(v)
+        if o.cls == 'StandardScaler':
+            return BoolV(F('has_' + a.s, Opaque, Bool)(o.fields['state'].term))
+        return BoolV(a.s in o.fields)
     raise Unsupported('hasattr')
 
 
@@ -603,12 +606,42 @@ def _fromiter(lib, run, recv, args, kw):
 # np.random.Generator is modelled by an abstract stream state: every draw is value = draw_k(state, params) and
 # state' = next_k(state, params) with uninterpreted draw/next (DESIGN 2.2).  Only range facts NumPy documents
 # are assumed.  The ghost draw log (run.st.draws) records (generator, kind, params) per path.
+def _slot(run, gen):
+    o = run.deref(gen)
+    if 'slot' in o.fields:
+        mref, key = o.fields['slot'].items
+        m = run.st.heap[mref.loc]
+        shared_gen = run.deref(Ref(m.shared_rng)).fields['rng'] if getattr(m, 'shared_rng', None) else None
+        return mref.loc, key.term, shared_gen
+    return None
+
+
 def _rs(run, gen):
-    return run.deref(gen).fields['state'].term
+    sl = _slot(run, gen)
+    if sl is None:
+        return run.deref(gen).fields['state'].term
+    loc, key, shared_gen = sl
+    m = run.st.heap[loc]
+    priv = m.cols['#rng_state'][key]
+    if shared_gen is None:
+        return priv
+    return z3.If(m.cols['#rng_shared'][key], _rs(run, shared_gen), priv)
 
 
 def _set_rs(run, gen, term):
-    run.write_field(gen, 'state', OpaqueV(term, 'rngstate'))
+    sl = _slot(run, gen)
+    if sl is None:
+        run.write_field(gen, 'state', OpaqueV(term, 'rngstate'))
+        return
+    loc, key, shared_gen = sl
+    m = run.st.heap[loc]
+    sh = m.cols['#rng_shared'][key]
+    if shared_gen is not None:
+        old = _rs(run, shared_gen)
+        _set_rs(run, shared_gen, z3.If(sh, term, old))
+        m = run.st.heap[loc]
+    run.set_heap(loc, m.with_col('#rng_state', z3.Store(m.cols['#rng_state'], key,
+                                                        z3.If(sh, m.cols['#rng_state'][key], term))), 'vals')
 
 
 draw_u = F('draw_u', Rng, Real)
@@ -842,3 +875,53 @@ def _quantile(lib, run, recv, args, kw):
     if s is None or s.kind != 'R' or q is None:
         raise Unsupported('np.quantile arguments')
     return Num(quantile(s.term, real(q)))
+
+
+# ---- multivariate normal, squeeze
+draw_mvn = F('draw_mvn', Rng, RSeq, Mat, Int, Mat)
+next_mvn = F('next_mvn', Rng, RSeq, Mat, Int, Rng)
+_mean = z3.Const('mean', RSeq)
+_cov = z3.Const('cov', Mat)
+axiom('draw_mvn.shape', forall([_s, _mean, _cov, _n], z3.Implies(_n >= 0, z3.And(mrows(draw_mvn(_s, _mean, _cov, _n)) == _n,
+                                                                                 mcols(draw_mvn(_s, _mean, _cov, _n)) ==
+                                                                                 T.rlen(_mean))),
+                               [draw_mvn(_s, _mean, _cov, _n)]), ['draw_mvn'], 'numpy')
+
+
+@reg('np.Generator.multivariate_normal')
+def _gen_mvn(lib, run, recv, args, kw):
+    s = _rs(run, recv)
+    mean, cov = args[0], args[1]
+    size = _size(kw.get('size', args[2] if len(args) > 2 else None))
+    if not (isinstance(mean, SeqV) and isinstance(cov, MatV) and size is not None and size[0] == 'n'):
+        raise Unsupported('multivariate_normal arguments')
+    run.st.draws.append(('mvn', mean.term, cov.term, size[1]))
+    _set_rs(run, recv, next_mvn(s, mean.term, cov.term, size[1]))
+    return MatV(draw_mvn(s, mean.term, cov.term, size[1]))
+
+
+mcol = F('mcol', Mat, Int, RSeq)
+axiom('mcol.len', forall([_M, _j], T.rlen(mcol(_M, _j)) == mrows(_M), [mcol(_M, _j)]), ['mcol'], 'numpy')
+axiom('mcol.at', forall([_M, _i, _j], T.rat(mcol(_M, _j), _i) == mat_at(_M, _i, _j), [T.rat(mcol(_M, _j), _i)]),
+      ['mcol'], 'numpy')
+
+
+@reg('np.squeeze')
+def _squeeze(lib, run, recv, args, kw):
+    """drops axes of length one: the rank of the result depends on the shape (path fork)"""
+    a = args[0]
+    if isinstance(a, MatV):
+        r1 = run.branch(mrows(a.term) == 1)
+        c1 = run.branch(mcols(a.term) == 1)
+        if r1 and c1:
+            return Num(mat_at(a.term, 0, 0))
+        if r1:
+            return SeqV('R', mrow(a.term, 0))
+        if c1:
+            return SeqV('R', mcol(a.term, 0))
+        return a
+    if isinstance(a, SeqV):
+        if run.branch(seq_len(a) == 1):
+            return Num(T.rat(a.term, 0))
+        return a
+    return a
